@@ -183,7 +183,11 @@ func genHostileFramed(t *rapid.T, tpl *gen.Template) ([]byte, string) {
 		k := rapid.IntRange(1, 3).Draw(t, "tokEdits")
 		for i := 0; i < k && len(toks) > 0; i++ {
 			pos := rapid.IntRange(0, len(toks)-1).Draw(t, "tokPos")
-			switch rapid.IntRange(0, 7).Draw(t, "tokEdit") {
+			switch rapid.IntRange(0, 9).Draw(t, "tokEdit") {
+			case 8: // the value grows at its end: more precision, a suffix, junk (longer than any layout of its type)
+				toks[pos].Val += rapid.SampledFrom([]string{"0", "456", "456789", "Z", "+01:00", ".5", "e9", "00000000000000000000", " and then some more text"}).Draw(t, "suffix")
+			case 9: // the value grows at its front
+				toks[pos].Val = rapid.SampledFrom([]string{"-", "+", "0", "00000000000000000000", " ", "1"}).Draw(t, "prefix") + toks[pos].Val
 			case 0: // drop the field
 				toks = append(toks[:pos], toks[pos+1:]...)
 			case 1: // strip '=' and value
@@ -224,7 +228,7 @@ func genHostileFramed(t *rapid.T, tpl *gen.Template) ([]byte, string) {
 		case 3, 4, 5:
 			toks = append(toks, ref.Tok{Tag: pick("cnt"), Val: rapid.SampledFrom([]string{"0", "1", "2", "3", "-1", "x", "", "99999999999999999999", "2"}).Draw(t, "cv"), HasEq: true})
 		default:
-			toks = append(toks, ref.Tok{Tag: pick("fld"), Val: rapid.StringMatching(`[ -~]{0,6}`).Draw(t, "fv"), HasEq: true})
+			toks = append(toks, ref.Tok{Tag: pick("fld"), Val: rapid.StringMatching(rapid.SampledFrom([]string{`[ -~]{0,6}`, `[ -~]{0,6}`, `[0-9:.-]{15,40}`}).Draw(t, "fvShape")).Draw(t, "fv"), HasEq: true})
 		}
 	}
 	msgType := tpl.MsgType
